@@ -205,7 +205,7 @@ PROPS["C04"] = {
     "level_note": _ARCH_NOTE,
 }
 PROPS["C11"] = {
-    "theorems": ["C11_decode_encode_dict"],
+    "theorems": ["C11_decode_encode_dict", "C11_compress_conforming", "C11_header_layout", "C11_archive_is_header_then_chunks"],
     "suites": ["protoenc", "compress", "clirt"], "needs_cli": True,
     "rule": "cases: random dictionaries through prost's encoder vs the model encoder (byte exact); library and CLI writers on "
             "generated sources/configs vs the model's archive bytes (byte exact, hash and compressed payload tables supplied by "
